@@ -13,3 +13,4 @@ import Sheens.MCrew
 import Sheens.Timers
 import Sheens.Expect
 import Sheens.Tools
+import Sheens.Compile
